@@ -80,28 +80,16 @@ pub fn read_graphml_string(string: &str, specs: GraphSpecs) -> Result<Graph<Stri
                         edge_weight_attr_name = id;
                     }
                 }
+                // an empty graph may be written as a self-closing element
+                b"graph" => {
+                    directed = get_graph_directedness(e)?;
+                }
                 _ => (),
             },
             Ok(Event::Start(ref e)) => {
                 match e.name().as_ref() {
                     b"graph" => {
-                        let attrs = get_attributes_as_hashmap(e)?;
-                        match attrs.get("edgedefault") {
-                            None => {
-                                return Err(get_read_error("the <graph> element does not have an \"edgedefault\" attribute"));
-                            }
-                            Some(value) => match value.as_str() {
-                                "directed" => {
-                                    directed = true;
-                                }
-                                "undirected" => {
-                                    directed = false;
-                                }
-                                _ => {
-                                    return Err(get_read_error("the <graph> element's \"edgedefault\" attribute does not have a valid value; it should be one of \"directed\" or \"undirected\""));
-                                }
-                            },
-                        }
+                        directed = get_graph_directedness(e)?;
                     }
                     b"node" => {
                         last_element_name = "node".to_string();
@@ -312,6 +300,21 @@ fn get_attributes_as_hashmap(event: &BytesStart) -> Result<HashMap<String, Strin
         attrs.insert(key, value);
     }
     Ok(attrs)
+}
+
+/// Returns the directedness that a <graph> element declares with its "edgedefault" attribute.
+fn get_graph_directedness(e: &BytesStart) -> Result<bool, Error> {
+    let attrs = get_attributes_as_hashmap(e)?;
+    match attrs.get("edgedefault") {
+        None => Err(get_read_error(
+            "the <graph> element does not have an \"edgedefault\" attribute",
+        )),
+        Some(value) => match value.as_str() {
+            "directed" => Ok(true),
+            "undirected" => Ok(false),
+            _ => Err(get_read_error("the <graph> element's \"edgedefault\" attribute does not have a valid value; it should be one of \"directed\" or \"undirected\"")),
+        },
+    }
 }
 
 /// If `e` is a <key> element that declares the edge weight attribute, returns its id.
